@@ -221,4 +221,57 @@ PROPS = {
         ],
         "assumptions": ["raw_node.rs functions are verified in mode S", "payload-size sums fit in usize"],
     },
+    "C05": {
+        "title": "Log matching; leaders append-only; committed prefix immutable",
+        "modules": ["top", "prelude", "pb", "inflights", "progress", "quorum", "tracker", "log_unstable", "storage_trait", "raft_log", "raft"],
+        "body": {"P": ["log_unstable", "raft_log"], "S": ["log_unstable", "raft_log", "raft"]},
+        "modes": ["P", "S"],
+        "claim": "PARTIAL (per node and per call: acceptance rule, truncation point, immutability of the committed prefix)",
+        "decided": [
+            "RaftLog::maybe_append accepts iff (prev index, prev term) matches, truncates only from the first conflicting index, keeps every entry "
+            "at or below the commit index (mode S: on every normal return with NO assumption on the message: a conflict at or below the commit "
+            "index aborts instead of truncating), lowers persisted below the conflict, holds the new entries afterwards",
+            "RaftLog::append / Unstable::truncate_and_append: log' = log[..after) ++ ents; nothing below the first appended index changes",
+            "Raft::handle_append_entries: exactly one reply; accepted iff match, reply index = last new index; a rejection leaves the log unchanged "
+            "and carries a hint (index <= min(m.index, last), term of that index <= m.log_term); the committed prefix is never altered",
+            "find_conflict / find_conflict_by_term equal the model (C14)",
+        ],
+        "undecided": ["the pairwise statement over two nodes' logs (log matching proper)", "'a leader never removes or rewrites an entry of its own log while it leads' as a history statement (append_entry is not under contract in this revision)"],
+        "assumptions": ["mode S for raft.rs", "message shape: contiguous entries with term > 0 (what peers running this library send)"],
+    },
+    "C04": {
+        "title": "Commit rule: only own-term entries that are durable on a quorum",
+        "modules": ["top", "prelude", "pb", "inflights", "progress", "quorum", "tracker", "log_unstable", "storage_trait", "raft_log", "raft"],
+        "body": {"P": ["quorum", "tracker", "log_unstable", "raft_log"], "S": ["quorum", "tracker", "log_unstable", "raft_log", "raft"]},
+        "cone": ["progress"],
+        "modes": ["P", "S"],
+        "claim": "PARTIAL (leader-side rule per call; follower-side bounds per call)",
+        "decided": [
+            "Raft::maybe_commit advances the commit index only to an index <= the quorum index of the active (joint) configuration over the "
+            "progress map's matched indexes (C11) whose entry carries the leader's current term (RaftLog::maybe_commit)",
+            "the leader's own matched index is written only by reset (= persisted) and by on_persist_entries (to the index the log just accepted "
+            "as persisted); maybe_persist refuses indexes at or beyond the first not-yet-written update and requires the stored term to match",
+            "follower: maybe_append / handle_append_entries never commit beyond min(leader commit, last new index); handle_heartbeat never beyond m.commit; heartbeats advertise commit <= matched",
+        ],
+        "undecided": ["'a non-leader's commit index never moves beyond an index some leader committed' and survival under minority crash (global)"],
+        "assumptions": ["mode S for raft.rs", "ProgressTracker::get_mut assumed (HashMap::get_mut has no vstd spec)", "R10/R9 of C11"],
+    },
+    "C15": {
+        "title": "Snapshot install and log compaction preserve state and safety",
+        "modules": ["top", "prelude", "pb", "inflights", "progress", "quorum", "tracker", "log_unstable", "storage_trait", "raft_log", "raft"],
+        "body": {"P": ["log_unstable", "raft_log", "progress"], "S": ["log_unstable", "raft_log", "progress", "raft"]},
+        "modes": ["P", "S"],
+        "claim": "PARTIAL (install decision, log/commit effect, leader-side send/resume rules; configuration rebuild is assumed until the membership unit)",
+        "decided": [
+            "Raft::restore: returns false with nothing changed if the snapshot is behind the commit index or does not list the node; if (index, term) "
+            "matches the log and no snapshot was requested it only commits up to the index and discards nothing; otherwise RaftLog::restore: "
+            "commit = index, boundary term = snapshot term, later appends continue at index+1, pending request cleared",
+            "RaftLog::restore / Unstable::restore equal the model; persisted is lowered to the old commit index",
+            "leader: maybe_send_append sends MsgSnapshot only if the follower asked for one or the term/entries it needs are unavailable, and then "
+            "moves the progress to Snapshot(index); become_probe after a snapshot resumes at max(matched, pending_snapshot)+1",
+        ],
+        "undecided": ["equality of application state; 'compaction changes no other guarantee'", "the configuration rebuilt from the snapshot (confchange::restore, post_conf_change) is an assumed contract in this revision",
+                      "handle_snapshot_status / handle_append_response are not under contract in this revision"],
+        "assumptions": ["mode S for raft.rs", "R9: the iterator chain membership test of Raft::restore; R10: its untested tail"],
+    },
 }
